@@ -94,6 +94,9 @@ Definition check_step (cf : config) (st : cst) (o : op) (b : obs) : option cst :
                        && forallb (rec_ok (cf_npre cf) (cf_nsamp cf) (znth [] G' r) F0) rs)
                     (zrange 0 n)
       then Some {| c_R := c_R st; c_G := G'; c_F0 := Some F0 |} else None
+  | ORestart, ORep rep _ _ =>
+      (* a restarted source has no connections, and clients must have been told so *)
+      if report_ok n rel_empty rep then Some (cst_init n) else None
   | _, _ => None        (* a crash, or an answer of the wrong shape *)
   end.
 
@@ -126,6 +129,7 @@ Fixpoint inputs_ok (cf : config) (next : option Z) (len : Z) (ops : list op) : P
   match ops with
   | [] => True
   | OEdit _ :: rest => inputs_ok cf next len rest
+  | ORestart :: rest => inputs_ok cf None 0 rest
   | OCycle blk prims :: rest =>
       block_ok (cf_n cf) blk /\
       match next with Some f => blk_first blk = f | None => True end /\
@@ -137,26 +141,25 @@ Fixpoint inputs_ok (cf : config) (next : option Z) (len : Z) (ops : list op) : P
   end.
 
 (* ---------- vocabulary of the theorems about histories ---------- *)
-(* the requests of a history *)
-Fixpoint edits_of (ops : list op) : list edit :=
-  match ops with
-  | [] => []
-  | OEdit e :: rest => e :: edits_of rest
-  | OCycle _ _ :: rest => edits_of rest
-  end.
+(* the set-theoretic connection set after a history: requests act as set operations, a restart empties it *)
+Definition rel_step (k : kind) (n : Z) (R : rel) (o : op) : rel :=
+  match o with OEdit e => rel_edit k n R e | OCycle _ _ => R | ORestart => rel_empty end.
+Definition rel_of_ops (k : kind) (n : Z) (ops : list op) : rel := fold_left (rel_step k n) ops rel_empty.
 
-(* ground truth of channel c: everything the history delivered to it *)
-Fixpoint truth (c : Z) (ops : list op) : list Z :=
-  match ops with
-  | [] => []
-  | OCycle blk _ :: rest => fst (znth ([], false) (blk_chans blk) c) ++ truth c rest
-  | OEdit _ :: rest => truth c rest
+(* ground truth of channel c: everything delivered to it since the (last) start of the source *)
+Definition truth_step (c : Z) (G : list Z) (o : op) : list Z :=
+  match o with
+  | OCycle blk _ => G ++ fst (znth ([], false) (blk_chans blk) c)
+  | ORestart => []
+  | OEdit _ => G
   end.
+Definition truth (c : Z) (ops : list op) : list Z := fold_left (truth_step c) ops [].
 
-(* frame number of the first sample ever delivered *)
-Fixpoint first_frame (ops : list op) : option Z :=
-  match ops with
-  | [] => None
-  | OCycle blk _ :: _ => Some (blk_first blk)
-  | OEdit _ :: rest => first_frame rest
+(* frame number of the first sample delivered since the (last) start *)
+Definition first_step (F : option Z) (o : op) : option Z :=
+  match o with
+  | OCycle blk _ => match F with Some f => Some f | None => Some (blk_first blk) end
+  | ORestart => None
+  | OEdit _ => F
   end.
+Definition first_frame (ops : list op) : option Z := fold_left first_step ops None.
